@@ -228,6 +228,59 @@ func checkC10(c *Ctx) {
 		w.SeenB(b)
 	})
 	replayers["C10/escape-model-ext"] = replayers["C10/escape-model"]
+	// every tail: the rule "one '?' after a truncated multi-byte sequence at the end" must separate every valid
+	// encoding (U+FFFD itself included) from every truncated or ill-formed one. All 1- and 2-byte tails, all 3-byte
+	// tails with a 3-byte lead (quick) / all 2^24 (thorough), 4-byte tails with a 4-byte lead over a continuation
+	// subset; each after the prefixes "", "a", start marker.
+	tailN := 256 + 65536 + 16*65536
+	if !c.Quick() {
+		tailN = 256 + 65536 + 256*65536
+	}
+	cont4 := []byte{0x80, 0x8f, 0x90, 0xbf, 0xbd, 0x7f, 0xc0}
+	tailN4 := 5 * len(cont4) * len(cont4) * len(cont4)
+	c.Section("C10/tails", map[string]interface{}{"tails": tailN + tailN4, "prefixes": []string{"", "a", mStart}}, (tailN+tailN4+255)/256, func(blk int, w *Worker) {
+		buf := make([]byte, 0, 16)
+		for i := blk * 256; i < (blk+1)*256 && i < tailN+tailN4; i++ {
+			var tail []byte
+			switch {
+			case i < 256:
+				tail = []byte{byte(i)}
+			case i < 256+65536:
+				j := i - 256
+				tail = []byte{byte(j >> 8), byte(j)}
+			case i < tailN:
+				j := i - 256 - 65536
+				b0 := byte(j >> 16)
+				if c.Quick() {
+					b0 = 0xe0 + byte(j>>16)
+				}
+				tail = []byte{b0, byte(j >> 8), byte(j)}
+			default:
+				j := i - tailN
+				n := len(cont4)
+				tail = []byte{0xf0 + byte(j/(n*n*n)), cont4[j/(n*n)%n], cont4[j/n%n], cont4[j%n]}
+			}
+			for _, pre := range []string{"", "a", mStart} {
+				buf = append(append(buf[:0], pre...), tail...)
+				w.Eval()
+				if d := c10EvalEscape(buf, 0, i%2 == 0); d != "" {
+					w.Fail("escape-model", c10case{B: append([]byte(nil), buf...), Q: q(string(buf)), StartLoc: 0, BNL: i%2 == 0}, d)
+				}
+				if d := c10EvalPublic(buf); d != "" {
+					w.Fail("public", c10case{B: append([]byte(nil), buf...), Q: q(string(buf))}, d)
+				}
+			}
+		}
+		w.Seen(uint64(blk))
+	})
+	replayers["C10/tails"] = func(c *Ctx, raw json.RawMessage) string {
+		var cs c10case
+		json.Unmarshal(raw, &cs)
+		if d := c10EvalEscape(cs.B, cs.StartLoc, cs.BNL); d != "" {
+			return d
+		}
+		return c10EvalPublic(cs.B)
+	}
 	c.Section("C10/public", map[string]interface{}{"alphabet": alphaB, "max_len": n, "functions": "EscapeMarkers, EscapeBytes"}, en.Total, func(i int, w *Worker) {
 		b := en.Get(i, nil)
 		w.Eval()
